@@ -196,7 +196,8 @@ func (fu *folderUpload) FormattedPath() string {
 	// TODO: implement scanner interface instead?
 	for i := uint16(0); i < pathItemLen; i++ {
 		segLen := int(pathData[2])
-		pathSegments = append(pathSegments, string(pathData[3:3+segLen]))
+		// Clean every segment under "/" so that ".." and embedded separators cannot climb out of the upload folder.
+		pathSegments = append(pathSegments, filepath.Join("/", string(pathData[3:3+segLen])))
 		pathData = pathData[3+segLen:]
 	}
 
